@@ -155,6 +155,9 @@ type Kernel struct {
 	resetters []func()
 	stepHooks []func()
 	doneTok   int64
+	nextID    int
+	doneCount int
+	pruned    int
 }
 
 // K is the kernel of the run in progress; nil outside a simulation, in which
@@ -229,7 +232,7 @@ func Run(cfg Config, root func()) *Result {
 	r.Hash = k.hash
 	r.Probes = k.probes.toMap()
 	r.Faults = k.faults.toMap()
-	r.NTasks = len(k.tasks)
+	r.NTasks = k.nextID
 	r.Tasks = k.taskInfos()
 	if k.ring != nil {
 		n := len(k.ring)
@@ -245,7 +248,8 @@ func Run(cfg Config, root func()) *Result {
 
 //go:norace
 func (k *Kernel) newTask(name string, harness bool) *Task {
-	t := &Task{ID: len(k.tasks), Name: name, Harness: harness, wake: make(chan struct{}, 1)}
+	t := &Task{ID: k.nextID, Name: name, Harness: harness, wake: make(chan struct{}, 1)}
+	k.nextID++
 	if k.cfg.Sched == SchedPCT {
 		t.prio = int64(k.sched.Uint64()>>2) + 1000
 	}
@@ -276,6 +280,24 @@ func (k *Kernel) taskExit(t *Task, r any, goexit bool) {
 		return
 	}
 	t.state = stDone
+	k.doneCount++
+	if k.doneCount > 64 && k.doneCount*2 > len(k.tasks) {
+		// forget finished tasks (long runs that build many caches)
+		w := 0
+		for _, x := range k.tasks {
+			if x.state != stDone || x.ID == 0 || x == t {
+				k.tasks[w] = x
+				w++
+			} else {
+				k.pruned++
+			}
+		}
+		for i := w; i < len(k.tasks); i++ {
+			k.tasks[i] = nil
+		}
+		k.tasks = k.tasks[:w]
+		k.doneCount = 0
+	}
 	RaceRelease(unsafe.Pointer(&t.joinTok))
 	k.event(KExit, "")
 	if r != nil {
@@ -709,7 +731,8 @@ func Sleep(d int64) {
 	cur := k.cur
 	fired := false
 	tm := k.addTimer(k.now+d, func() { fired = true; k.notify(cur) })
-	tm.harness = cur.Harness
+	// a sleeping task will run again on its own: never part of a no-progress verdict
+	tm.harness = true
 	for !fired {
 		Block(cur)
 	}
@@ -871,6 +894,17 @@ type Timer struct{ t *timer }
 //go:norace
 func AddTimer(due int64, fn func()) Timer {
 	return Timer{K.addTimer(due, fn)}
+}
+
+// AddOneShot is AddTimer for a timer that fires exactly once (Sleep, After,
+// AfterFunc): while one is pending the run can still make progress, so it
+// never takes part in a no-progress verdict (periodic tickers do).
+//
+//go:norace
+func AddOneShot(due int64, fn func()) Timer {
+	tm := K.addTimer(due, fn)
+	tm.harness = true
+	return Timer{tm}
 }
 
 //go:norace
